@@ -370,7 +370,8 @@ def _ob_gloop_global():
             it = iter(vals)
             scaled = Rec("self/norm", log, {"local_expectation_gloop_expand": lambda *_a, **_k: next(it)})
             nf = Tok("nfactor")
-            me = Rec("self", log, {"norm_gloop_expand": nf, "__truediv__": scaled})
+            me = Rec("self", log, {"norm_gloop_expand": nf, "__truediv__": scaled,
+                                  "copy": Rec("copy", log, {"local_expectation_gloop_expand": sp.Symbol("c")})})
             o = {p: Tok(p) for p in ("gloops", "gauges", "autocomplete", "autoreduce", "optimize", "combine",
                                      "grow_from", "strict_size")}
             info = {}
@@ -720,4 +721,359 @@ def provider(tier=None):
         ob.run(T1, f"{_MPS}.compute_local_expectation_canonical", lab, "fdx", _ob_clec(lab))
     ob.run(T1, f"{_MPS}.compute_local_expectation_canonical", "record-starts-from-callers", "fdx", _ob_record_start())
     ob.run(T1, f"{_MPS}.compute_local_expectation", "method-table", "fdx", _ob_dispatch_1d())
+    return ob.out
+
+
+# ------------------------------------------------------------------ 2D: compute_local_expectation via plaquette environments
+T2 = "quimb/tensor/tn2d/core.py"
+_P2 = "TensorNetwork2DVector"
+
+
+class TN2:
+    """structural stand-in for a 2D network: remembers how it was built"""
+
+    def __init__(self, kind, parts=(), reg=None):
+        self.kind, self.parts, self.reg, self.viewed = kind, parts, reg, None
+
+    def __repr__(self):
+        return f"{self.kind}{self.parts!r}"
+
+    def __or__(self, other):
+        return TN2("or", (self, other), self.reg)
+
+    def select_any(self, sites):
+        return TN2("select", (self, tuple(sites)), self.reg)
+
+    def view_as_(self, cls, **kw):
+        self.viewed = (cls, kw)
+        return self
+
+    def gate(self, G, where, **kw):
+        return TN2("gate", (self, G, where, kw), self.reg)
+
+    def site_tag(self, coo):
+        return f"I{coo[0]},{coo[1]}"
+
+    def contract(self, *a, **kw):
+        s = sp.Symbol(f"v{len(self.reg)}")
+        self.reg[s] = (self, a, kw)
+        return s
+
+    def make_norm(self, **kw):
+        self.reg["make_norm"] = kw
+        return self.norm, self.ket, self.bra
+
+    def compute_plaquette_environments(self, x_bsz, y_bsz, **kw):
+        self.reg.setdefault("envcalls", []).append(((x_bsz, y_bsz), kw))
+        return {((i, j), (x_bsz, y_bsz)): TN2("env", (((i, j), (x_bsz, y_bsz)),), self.reg)
+                for i in range(3 - x_bsz + 1) for j in range(3 - y_bsz + 1)}
+
+
+def _g2():
+    from collections import defaultdict
+    g = dict(defaultdict=defaultdict, functools=functools, add=operator.add, combinations=itertools.combinations,
+             Integral=numbers.Integral,
+             TensorNetwork2DVector=Tok("TensorNetwork2DVector"))
+    for nm in ("is_lone_coo", "calc_plaquette_sizes", "plaquette_to_sites", "calc_plaquette_map"):
+        real(T2, nm, g, share=True)          # the plaquette bookkeeping is the real source too
+    return g
+
+
+def _terms_2d():
+    S = [(i, j) for i in range(3) for j in range(3)]
+    one = [{a: Tok("G")} for a in S] + [{(a, b): Tok("G")} for a in S for b in S if a != b]
+    many = [{(0, 0): Tok("G0"), ((0, 0), (0, 1)): Tok("G1"), ((1, 0), (0, 0)): Tok("G2"), ((1, 1), (2, 2)): Tok("G3")},
+            {((0, 1), (0, 0)): Tok("G0"), ((0, 0), (0, 1)): Tok("G1"), ((2, 2), (0, 2)): Tok("G2")},
+            {((2, 0), (1, 1)): Tok("G0"), (2, 1): Tok("G1"), ((2, 1), (2, 2)): Tok("G2")}]   # (sites and pairs: the plaquette map knows nothing else)
+    return one, many
+
+
+def _ob_2d(which):
+    def go():
+        g = _g2()
+        f = real(T2, f"{_P2}.compute_local_expectation", g)
+        one, many = _terms_2d()
+        for terms, normalized, return_all, autogroup, supplied in itertools.product(
+                one + many, (False, True), (False, True), (True, False), (False, True)):
+            if supplied and len(terms) == 1 and which != "environment-options":
+                continue
+            reg = {}
+            me = TN2("self", (), reg)
+            me.norm, me.ket, me.bra = TN2("norm", (), reg), TN2("ket", (), reg), TN2("bra", (), reg)
+            o = {p: Tok(p) for p in ("max_bond", "cutoff", "canonize", "mode", "layer_tags")}
+            copt, extra = Tok("contract_optimize"), dict(extra_opt=Tok("extra"))
+            kw = {}
+            if supplied:     # the caller's own environments (all 2x2 and 3x3 plaquettes) are used as they are
+                kw["plaquette_envs"] = envs = {**me.norm.compute_plaquette_environments(3, 3),
+                                               **me.norm.compute_plaquette_environments(2, 2)}
+                reg.pop("envcalls")
+            got = f(me, terms, normalized=normalized, return_all=return_all, autogroup=autogroup, contract_optimize=copt,
+                    **o, **extra, **kw)
+            inp = dict(terms=terms, normalized=normalized, return_all=return_all, autogroup=autogroup,
+                       plaquette_envs_supplied=supplied, got=got)
+            allv = f(me, terms, normalized=normalized, return_all=True, autogroup=autogroup, contract_optimize=copt,
+                     **o, **extra, **kw) if not return_all else got
+            if which == "environment-options":
+                calls = reg.get("envcalls", [])
+                if supplied:
+                    if calls:
+                        return inp
+                    continue
+                if not calls or any(k != dict(o, **extra) for _, k in calls) or reg.get("make_norm") != dict(return_all=True):
+                    return dict(inp, envcalls=calls)
+                continue
+            if set(allv) != set(terms):
+                return inp
+            for where, G in terms.items():
+                e, n = allv[where]
+                num, a, k_ = reg[e]
+                sites = (where,) if isinstance(where[0], int) else where
+                bad = dict(inp, where=where, numerator=num, denominator=reg.get(n))
+                if a != (all,) or k_ != dict(optimize=copt) or num.kind != "or" or num.parts[0].kind != "gate":
+                    return bad
+                ket_local, Gg, wg, gk = num.parts[0].parts
+                bra_env = num.parts[1]
+                if Gg is not G or wg is not where or gk != dict(contract=False):
+                    return bad                                   # operator on the sites in the order given
+                if ket_local.kind != "select" or ket_local.parts[0] is not me.ket or bra_env.kind != "or":
+                    return bad
+                bsel, env = bra_env.parts
+                if bsel.kind != "select" or bsel.parts[0] is not me.bra or env.kind != "env":
+                    return bad
+                (i0, j0), (di, dj) = p = env.parts[0]
+                rect = [(i, j) for i in range(i0, i0 + di) for j in range(j0, j0 + dj)]
+                tags = tuple(f"I{i},{j}" for i, j in rect)
+                if which == "plaquette-covers-term-operator-order-kept":
+                    if ket_local.parts[1] != tags or bsel.parts[1] != tags or not set(sites) <= set(rect):
+                        return bad
+                    if supplied and env is not envs[p]:
+                        return bad
+                    if ket_local.viewed is None or ket_local.viewed[1].get("like") is not me:
+                        return bad
+                else:     # numerator and denominator from the same environment
+                    if not normalized:
+                        if n is not None:
+                            return bad
+                        continue
+                    den, a2, k2 = reg[n]
+                    if a2 != (all,) or k2 != dict(optimize=copt) or den.kind != "or":
+                        return bad
+                    if {id(x) for x in den.parts} != {id(ket_local), id(bra_env)}:      # a | b = b | a (label convention)
+                        return bad
+    return go
+
+
+def _ob_2d_sum():
+    """summed forms: normalized -> sum_i e_i / n_i (each term by ITS OWN plaquette norm), else sum_i e_i"""
+    def go():
+        g = _g2()
+        f = real(T2, f"{_P2}.compute_local_expectation", g)
+        one, many = _terms_2d()
+        for terms, normalized, autogroup in itertools.product(one[::7] + many, (False, True), (True, False)):
+            reg = {}
+            me = TN2("self", (), reg)
+            me.norm, me.ket, me.bra = TN2("norm", (), reg), TN2("ket", (), reg), TN2("bra", (), reg)
+            got = f(me, terms, normalized=normalized, autogroup=autogroup)
+            # read the structure of every contracted value back from the registry
+            val = {s: v for s, v in reg.items() if isinstance(s, sp.Symbol)}
+            nums = {s: v[0].parts[0].parts[2] for s, v in val.items() if v[0].parts[0].kind == "gate"}
+            dens = {s: v[0] for s, v in val.items() if v[0].parts[0].kind != "gate"}
+            want = 0
+            for s, where in nums.items():
+                if normalized:
+                    mine = [d for d, tn in dens.items() if any(x is val[s][0].parts[1] for x in tn.parts)]
+                    if len(mine) != 1:
+                        return dict(terms=terms, normalized=normalized, got=got)
+                    want += s / mine[0]
+                else:
+                    want += s
+            if sorted(nums.values(), key=repr) != sorted(terms, key=repr) or sp.simplify(got - want) != 0 or (dens and not normalized):
+                return dict(terms=terms, normalized=normalized, autogroup=autogroup, got=got, want=want)
+    return go
+
+
+def provider_2d(tier=None):
+    ob = _Obs()
+    q = f"{_P2}.compute_local_expectation"
+    for lab in ("plaquette-covers-term-operator-order-kept", "numerator-denominator-same-environment", "environment-options"):
+        ob.run(T2, q, lab, "fdx", _ob_2d(lab))
+    ob.run(T2, q, "summed-forms-own-norm-per-term", "e2", _ob_2d_sum())
+    return ob.out
+
+
+# ------------------------------------------------------------------ 3D: PEPS3D.compute_local_expectation
+T3 = "quimb/tensor/tn3d/core.py"
+
+
+def _tensordot2(a, b, axes):
+    """exact tensordot of two 2-index sympy matrices over the given axis pairs (all indices summed)"""
+    pairs = list(zip(*axes))
+    assert sorted(p[0] for p in pairs) == [0, 1] and sorted(p[1] for p in pairs) == [0, 1]
+    tot = 0
+    for i, j in itertools.product(range(2), repeat=2):
+        ia = (i, j)
+        ib = [None, None]
+        for pa, pb in pairs:
+            ib[pb] = ia[pa]
+        tot += a[ia[0], ia[1]] * b[ib[0], ib[1]]
+    return tot
+
+
+def _ob_3d(which):
+    def go():
+        dolog = []
+
+        def do(name, a, b, axes=None, **k):
+            dolog.append(name)
+            assert name == "tensordot"
+            return _tensordot2(a, b, k.get("axes", axes))
+        f = real(T3, "PEPS3D.compute_local_expectation", dict(do=do, functools=functools, add=operator.add, Progbar=_progbar))
+        for m, return_all, envs_kind, progbar in itertools.product((1, 2, 3), (False, True), ("none", "given", "factory"),
+                                                                   (False, True)):
+            terms = {w: sp.Matrix(2, 2, sp.symbols(f"g{i}_0:4")) for i, w in enumerate(_terms(m))}
+            rhos = [sp.Matrix(2, 2, sp.symbols(f"p{i}_0:4")) for i in range(m)]
+            it, log = iter(rhos), []
+            me = Rec("self", log, {"partial_trace": lambda *_a, **_k: next(it)})
+            o = {p: Tok(p) for p in ("max_bond", "cutoff", "canonize", "flatten", "normalized", "symmetrized")}
+            extra = dict(extra_opt=Tok("extra"))
+            given, made = {"given": 1}, {"made": 1}
+            kw = dict(envs=given) if envs_kind == "given" else {}
+            sf = (lambda: made) if envs_kind == "factory" else None
+            got = f(me, terms, return_all=return_all, storage_factory=sf, progbar=progbar, **o, **extra, **kw)
+            inp = dict(n_terms=m, return_all=return_all, envs=envs_kind, progbar=progbar, log=log, got=got)
+            if which == "options-reach-partial-trace-environments-shared":
+                if len(log) != m:
+                    return inp
+                for (obj, meth, a, k), w in zip(log, terms):
+                    k = dict(k)
+                    e = k.pop("envs", None)
+                    if obj is not me or meth != "partial_trace" or a != (w,) or k != dict(o, storage_factory=sf, **extra):
+                        return inp
+                    if e is not log[0][3]["envs"] or not isinstance(e, dict):
+                        return inp                  # one store of environments for all the terms
+                    if (envs_kind == "given" and e is not given) or (envs_kind == "factory" and e is not made):
+                        return inp
+            else:
+                want = {w: sum(G[b, k] * r[k, b] for b in range(2) for k in range(2)) for (w, G), r in zip(terms.items(), rhos)}
+                if return_all:
+                    if not isinstance(got, dict) or list(got) != list(terms) or any(sp.expand(got[w] - want[w]) != 0 for w in want):
+                        return inp
+                elif isinstance(got, dict) or sp.expand(got - sum(want.values())) != 0:
+                    return inp
+    return go
+
+
+def provider_3d(tier=None):
+    ob = _Obs()
+    ob.run(T3, "PEPS3D.compute_local_expectation", "options-reach-partial-trace-environments-shared", "fdx",
+           _ob_3d("options-reach-partial-trace-environments-shared"))
+    ob.run(T3, "PEPS3D.compute_local_expectation", "trace-G-rho-dict-or-sum", "e2", _ob_3d("trace-G-rho-dict-or-sum"))
+    return ob.out
+
+
+# ------------------------------------------------------------------ 1D: MatrixProductState.compute_local_expectation_via_envs
+_L1 = 4
+
+
+class TN1(TN2):
+    gated = None
+
+    def __or__(self, other):
+        return TN1("or", (self, other), self.reg)
+
+    def select_any(self, tags, **kw):
+        return TN1("select", (self, tuple(tags), kw), self.reg)
+
+    def select(self, tags, **kw):
+        return TN1("select", (self, tags, kw), self.reg)
+
+    def site_tag(self, i):
+        return f"I{i}"
+
+    def gate_(self, G, where, **kw):
+        assert self.gated is None
+        self.gated = (G, where, kw)
+        return self
+
+    def compute_left_environments(self, **kw):
+        self.reg["left"] = kw
+        self.left = {i: TN1("L", (i,), self.reg) for i in range(1, _L1)}
+        return self.left
+
+    def compute_right_environments(self, **kw):
+        self.reg["right"] = kw
+        self.right = {i: TN1("R", (i,), self.reg) for i in range(_L1 - 1)}
+        return self.right
+
+
+def _leaves(t):
+    return _leaves(t.parts[0]) + _leaves(t.parts[1]) if t.kind == "or" else [t]
+
+
+def _ob_envs(which):
+    def go():
+        f = real(T1, "MatrixProductState.compute_local_expectation_via_envs",
+                 dict(Integral=numbers.Integral, functools=functools, operator=operator))
+        wheres = list(range(_L1)) + [p for r in (1, 2, 3) for c in itertools.combinations(range(_L1), r)
+                                     for p in itertools.permutations(c)]
+        termsets = [{w: Tok("G")} for w in wheres] + [{0: Tok("G0"), (2, 1): Tok("G1"), (3, 0): Tok("G2"), (1, 2): Tok("G3")}]
+        for terms, normalized, return_all in itertools.product(termsets, (False, True), (False, True)):
+            reg = {}
+            me = TN1("self", (), reg)
+            me.norm, me.ket, me.bra = TN1("norm", (), reg), TN1("ket", (), reg), TN1("bra", (), reg)
+            opts = dict(optimize=Tok("opt"))
+            got = f(me, terms, normalized=normalized, return_all=return_all, **opts)
+            inp = dict(terms=terms, normalized=normalized, return_all=return_all, got=got)
+            vals = {s: v for s, v in reg.items() if isinstance(s, sp.Symbol)}
+            if any(v[1] != (all,) or v[2] != opts for v in vals.values()) or reg["left"] != opts or reg["right"] != opts:
+                return inp
+            num, nf = {}, []
+            for s, (tn, _, _) in vals.items():
+                lv = _leaves(tn)
+                gk = [x for x in lv if x.kind == "select" and x.parts[0] is me.ket]
+                if gk and gk[0].gated:
+                    num[gk[0].gated[1]] = (s, lv, gk[0])
+                else:
+                    nf.append((s, lv))
+            if set(num) != set(terms) or len(nf) != (1 if normalized else 0):
+                return inp
+            if normalized:     # ONE denominator: the whole norm network (first site | everything to its right)
+                lv = nf[0][1]
+                if len(lv) != 2 or lv[0].parts[:2] != (me.norm, 0) or lv[1] is not me.norm.right[0]:
+                    return dict(inp, denominator=lv)
+            want = {}
+            for where, G in terms.items():
+                s, lv, k = num[where]
+                ws = (where,) if isinstance(where, int) else where
+                lo, hi = min(ws), max(ws)
+                tags = tuple(f"I{i}" for i in range(lo, hi + 1))
+                exp = [me.norm.left[lo]] if lo >= 1 else []
+                exp += [me.norm.right[hi]] if hi <= _L1 - 2 else []
+                b = [x for x in lv if x.kind == "select" and x.parts[0] is me.bra]
+                bad = dict(inp, where=where, network=lv, gated=k.gated)
+                if which == "operator-on-ket-sites-in-order-given":
+                    if k.gated[0] is not G or k.gated[1] is not where or k.gated[2] != dict(contract=False):
+                        return bad
+                    if k.parts[1] != tags or len(b) != 1 or b[0].parts[1] != tags or b[0].gated is not None:
+                        return bad
+                    if k.parts[2] != dict(virtual=False) or b[0].parts[2] != dict(virtual=False):
+                        return bad                      # the gate acts on a copy, not on the state itself
+                elif which == "environments-complete-the-network":
+                    rest = [x for x in lv if x is not k and not (b and x is b[0])]
+                    if len(lv) != 2 + len(exp) or {id(x) for x in rest} != {id(x) for x in exp}:
+                        return bad
+                want[where] = s / nf[0][0] if normalized else s
+            if which == "normalised-once-dict-or-sum":
+                if return_all:
+                    if not isinstance(got, dict) or list(got) != list(terms) or any(sp.simplify(got[w] - want[w]) != 0 for w in want):
+                        return inp
+                elif isinstance(got, dict) or sp.simplify(got - sum(want.values())) != 0:
+                    return inp
+    return go
+
+
+def provider_1d_envs(tier=None):
+    ob = _Obs()
+    for lab in ("operator-on-ket-sites-in-order-given", "environments-complete-the-network", "normalised-once-dict-or-sum"):
+        ob.run(T1, "MatrixProductState.compute_local_expectation_via_envs", lab, "fdx", _ob_envs(lab))
     return ob.out
